@@ -5,7 +5,7 @@ Proof side : Libvna.Props.C01/C17 — scaling invariance of the solved terms, a/
 Oracle     : metamorphic pairs built on the same E-network and DUT; the two applied S matrices must agree
              (and equal the DUT).
 """
-import os, random
+import cmath, os, random
 import numpy as np
 import vlib
 from props import calsim, c15
@@ -14,8 +14,34 @@ THEOREMS = ['Libvna.Cal.' + t for t in ('applyT_scale_invariant', 'applyT_invert
 FILES = ['Props/C01.lean', 'Props/C17.lean']
 
 
+class VecSc(calsim.Scenario):
+    """short and open are kit models: vector parameters of the vnacal_t, tabulated on a grid of their own (handles in `vec`)"""
+    vec = None
+
+    def add_reflect(self, port, code, gamma=None, abbreviated=False):
+        if gamma is None and self.vec and code in self.vec:
+            h_, fn = self.vec[code]
+            gamma = (h_, lambda fi, fn=fn: fn(self.fvec[fi]))
+        return super().add_reflect(port, code, gamma, abbreviated)
+
+
+def kit_vectors(rng, c, fmin, fmax):
+    """(lines that create the two kit vectors in vnacal_t c as handles 3 and 4, {code: (handle, model)}): offset short and offset open on a
+    grid of ten points that the calibration frequencies lie between"""
+    step = (fmax * 1.9 - fmin * 0.3) / 9
+    g0 = fmin * 0.3 + rng.uniform(-0.3, 0.3) * step
+    grid = [max(g0, fmin * 0.05) + k * step for k in range(10)]
+    a, b = rng.uniform(0.3, 0.9), rng.uniform(0.3, 0.9)
+    ms = lambda f: -0.98 * cmath.exp(-2j * a * f / fmin)
+    mo = lambda f: 0.97 * cmath.exp(-2j * b * f / fmin)
+    L = ['cal make_vector %d 10 %s %s' % (c, ' '.join(vlib.d2h(f) for f in grid), ' '.join(vlib.c2h(m(f)) for f in grid)) for m in (ms, mo)]
+    return L, {calsim.SHORT: (3, ms), calsim.OPEN: (4, mo)}
+
+
 def pair_lines(rng, typ, n, nf, form, kind):
     """returns (lines, [(index of apply line A, index of apply line B, dutA, dutB, perm)])"""
+    if kind in ('unrelated_kit', 'freq_split_kit'):
+        return kit_pair_lines(rng, typ, n, max(nf, 2), form, kind)
     box = calsim.ErrorBox(rng, typ, n, n, nf)
     A = calsim.Scenario(rng, typ, n, n, nf, form=form, slot_c=0, slot_n=0, box=box).begin()
     B = calsim.Scenario(rng, typ, n, n, nf, form=form, slot_c=1, slot_n=1, box=box)
@@ -168,6 +194,51 @@ def pair_lines(rng, typ, n, nf, form, kind):
     return lines, ia, ib, dut, dutB, n
 
 
+def kit_pair_lines(rng, typ, n, nf, form, kind):
+    """the same two transformations with frequency-dependent kit standards shared inside one vnacal_t: what a standard evaluates to must
+    not depend on what was evaluated before (another calibration on a higher band, the higher frequencies of the same calibration)"""
+    import copy
+    box = calsim.ErrorBox(rng, typ, n, n, nf)
+    A = VecSc(rng, typ, n, n, nf, form=form, slot_c=0, slot_n=0, box=box)
+    L, vec = kit_vectors(rng, 0, A.fvec[0], A.fvec[-1])
+    A.begin()
+    A.lines += L
+    A.vec = vec
+    dut = A.random_dut()
+    A.solt().solve().add_calibration(b'A')
+    lines = list(A.lines)
+    if kind == 'unrelated_kit':
+        # another calibration with the same kit on a higher band, then the first data again
+        hi = A.fvec[-1] * rng.uniform(1.3, 1.7)
+        O = VecSc(rng, 'T8' if typ != 'T8' else 'U8', 1, 1, 1, slot_c=0, slot_n=2, fvec=[hi])
+        O.vec = vec
+        O.begin(create=False).solt().solve().add_calibration(b'other')
+        B = VecSc(rng, typ, n, n, nf, form=form, slot_c=0, slot_n=1, box=box)
+        B.others, B.vec = A.others, vec
+        B.begin(create=False).solt().solve().add_calibration(b'B')
+        lines += O.lines + B.lines
+        ia = len(lines)
+        lines.append(A.apply_line(0, dut))
+        ib = len(lines)
+        lines.append(B.apply_line(2, dut))
+        lines += ['cal free 0', 'cal live']
+        return lines, ia, ib, dut, dut, n
+    ia = len(lines)
+    lines.append(A.apply_line(0, dut))
+    ibs = []
+    for f in range(nf):
+        bf = copy.copy(box)
+        bf.boxes, bf.nf = [box.boxes[f]], 1
+        Bf = VecSc(rng, typ, n, n, 1, form=form, slot_c=0, slot_n=1 + f, fvec=[A.fvec[f]], box=bf)
+        Bf.others, Bf.vec = A.others, vec
+        Bf.begin(create=False).solt().solve().add_calibration(b'B%d' % f)
+        lines += Bf.lines
+        ibs.append(len(lines))
+        lines.append(Bf.apply_line(1 + f, [dut[f]]))
+    lines += ['cal free 0', 'cal live']
+    return lines, ia, ibs, dut, dut, n
+
+
 def permute_box(box, perm):
     import copy
     nb = copy.copy(box)
@@ -214,7 +285,7 @@ def scale_ab_line(rng, line, typ):
     return ' '.join(w)
 
 
-KINDS = ['through_forms', 'abbreviated', 'double_forms', 'order', 'ab_scaling', 'unrelated', 'e12_ue14', 'renumber', 'freq_split']
+KINDS = ['through_forms', 'abbreviated', 'double_forms', 'order', 'ab_scaling', 'unrelated', 'e12_ue14', 'renumber', 'freq_split', 'unrelated_kit', 'freq_split_kit']
 
 
 def run(chk):
@@ -266,7 +337,14 @@ def run(chk):
             okB, SB = calsim.parse_apply(o[ib], n)
         eA = max(np.abs(SA[f] - dut[f]).max() for f in range(len(dut)))
         eB = max(np.abs(SB[f] - dutB[f]).max() for f in range(len(dut)))
-        if not (eA <= 1e-8 and eB <= 1e-8):
+        if kind.endswith('_kit'):
+            # the kit values are interpolated (both sides alike): compared with each other to rounding, with the truth loosely
+            eAB = max(np.abs(SA[f] - SB[f]).max() for f in range(len(dut)))
+            if not (eAB <= 1e-9 and eA <= 1e-2 and eB <= 1e-2):
+                chk.violation('pair-' + kind, '%s: the two descriptions differ by %.3e in the corrected S (errors vs truth %.3e and %.3e): the value of a '
+                              'frequency-dependent standard depends on what was evaluated before' % (tag, eAB, eA, eB), lines[:ib + 1])
+                continue
+        elif not (eA <= 1e-8 and eB <= 1e-8):
             chk.violation('pair-' + kind, '%s: the two descriptions do not give the same corrected S (errors vs truth %.3e and %.3e)' % (tag, eA, eB), lines[:ib + 1])
             continue
         chk.count('ok_' + kind)
